@@ -28,7 +28,7 @@ var opFuncs = map[string][]string{
 	"FormatFn":  {"Format"}, "AppendFn": {"Append"}, "AppendM": {"Append"}, "Sprintf": {"Format"},
 	"FormatState": {"Format"}, "AppendVsSprintf": {"Append", "Format"},
 	"Sscan": {"Scan"}, "ScanState": {"Scan"},
-	"JSONRT": {"MarshalJSON", "UnmarshalJSON"}, "JSONDoc": {"UnmarshalJSON"},
+	"JSONRT": {"MarshalJSON", "UnmarshalJSON"}, "JSONRT2": {"MarshalJSON", "UnmarshalJSON"}, "JSONDoc": {"UnmarshalJSON"},
 	"ComposeRow": {"Compose"},
 	"ModeTwin":   {"Add", "AddWithMode", "Sub", "SubWithMode", "Mul", "MulWithMode", "Quo", "QuoWithMode", "Pow", "PowWithMode", "QuoRem", "QuoRemWithMode"},
 	"Rat":        {"Rat", "FromRat"},
